@@ -34,6 +34,7 @@ import GluonModel.Generated.Facts.Locks
 import GluonModel.Generated.Facts.CloseVariant
 import GluonModel.Lemmas.ConcCmd
 import GluonModel.Generated.Facts.GoStop
+import GluonModel.Generated.Facts.GoLoops
 
 namespace Gluon.C19
 open Gluon.Conc
@@ -457,6 +458,52 @@ theorem session_goroutines_classified :
     Facts.readerStops = some true ∧ Facts.serveDefersDoneAndWait = some true := by
   decide
 
+/-- The long-lived goroutines of internal/backend are exactly the update injector's forwarder and the
+user's update goroutine, and EVERY blocking channel send / receive reachable from their bodies (helper
+methods such as `updateInjector.send` included) sits in a `select` that also has a returning case on
+the goroutine's own quit channel - the field its `Close` / `close` closes (`forwardQuitCh`,
+`updateQuitCh`). A case on `ctx.Done()` does not count: both goroutines run on `context.Background()`.
+A new goroutine, an unreadable one, a bare send or a select without the quit case breaks this theorem. -/
+theorem backend_loops_watch_quit :
+    Facts.backendLoopsUnknown = [] ∧
+    Facts.backendLoops = ["internal/backend/update_injector.go:newUpdateInjector:async.GoAnnotated",
+      "internal/backend/user.go:newUser:async.GoAnnotated"] ∧
+    loopWatched Facts.backendLoopOps "internal/backend/update_injector.go:newUpdateInjector:async.GoAnnotated" "forwardQuitCh" = true ∧
+    loopWatched Facts.backendLoopOps "internal/backend/user.go:newUser:async.GoAnnotated" "updateQuitCh" = true ∧
+    Facts.backendLoopOps.all (fun o => o.2.2.2) = true := by
+  decide
+
+/-- `updateInjector.Close` - hence `user.close`, `RemoveUser`, `Server.Close` - returns while connector
+updates are in flight. The model's forwarder watches `forwardQuitCh` in its selects exactly as far as the
+regenerated facts say (`loopWatched`). For every interleaving of connector publishes, deliveries and the
+teardown steps in `user.close`'s order (the reader of `updatesCh` is stopped FIRST): once `forwardQuitCh`
+is closed, the forwarder is one own step from its exit whatever it holds, and `forwardWG.Wait()` returns. -/
+theorem forwarder_close_returns :
+    ∀ steps : List InjStep,
+      let w := loopWatched Facts.backendLoopOps "internal/backend/update_injector.go:newUpdateInjector:async.GoAnnotated" "forwardQuitCh"
+      let s := (InjState.init w w).run steps
+      s.quit = true → (s.run [.fwdPoll, .waitReturn]).closeReturned = true := by
+  intro steps w s hq
+  have hw : w = true := by decide
+  obtain ⟨ho, hi⟩ := inj_cfg_run (InjState.init w w) steps
+  have ho' : s.watchOuter = true := by rw [show s.watchOuter = w from ho, hw]
+  have hi' : s.watchInner = true := by rw [show s.watchInner = w from hi, hw]
+  cases hf : s.fwd <;> simp [InjState.run, InjState.step, hf, hq, ho', hi']
+
+/-- Why the hand-over select must watch `forwardQuitCh` (and `ctx.Done()` of a background context is no
+substitute): the connector publishes one update, `user.close` stops the update goroutine, then closes the
+injector - the forwarder holds the update with no receiver left, and no step ever lets `Close` return. -/
+theorem forwarder_unwatched_send_stuck_witness :
+    let s := (InjState.init true false).run [.publish, .closeReaderQuit, .readerPoll, .closeQuit]
+    s.quit = true ∧ ∀ steps, (s.run steps).fwd = .holding ∧ (s.run steps).closeReturned = false := by
+  intro s
+  refine ⟨by decide, fun steps => ?_⟩
+  have hfix : ∀ st, s.step st = s := by
+    intro st
+    cases st <;> decide
+  rw [inj_fixed_run s steps hfix]
+  decide
+
 /-! ## non-vacuity -/
 
 /-- a run that exercises the queue: two racing producers, a reader, CloseAndDiscardQueued -/
@@ -523,5 +570,11 @@ example :
 example : ((IdleState.init true).run [.start, .fnReturn false, .fwdPoll]).fwd = .exited ∧
     ((IdleState.init true).run [.start, .fnReturn true, .fwdPoll]).fwd = .exited ∧
     ((IdleState.init false).run [.start, .fnReturn false, .fwdPoll]).fwd = .exited := by decide
+
+/-- the forwarder model delivers updates and takes both exits: idle at Close, and holding an update at Close -/
+example : ((InjState.init true true).run [.publish, .deliver, .publish, .deliver, .closeReaderQuit, .readerPoll, .closeQuit, .fwdPoll, .waitReturn]).closeReturned = true ∧
+    ((InjState.init true true).run [.publish, .deliver, .publish, .deliver]).delivered = 2 ∧
+    ((InjState.init true true).run [.publish, .deliver, .publish, .closeReaderQuit, .readerPoll, .closeQuit, .fwdPoll, .waitReturn]).closeReturned = true ∧
+    Facts.backendLoopOps.length ≥ 8 := by decide
 
 end Gluon.C19
